@@ -212,3 +212,18 @@ for o in OBS:
         for p in ('C02', 'C04'):
             if p not in o['props']:
                 o['props'].append(p)
+
+# ------------------------------------------------------------------------------------------------
+# Rely/guarantee obligations: ALL interleavings with any number of other threads (bitfield level)
+# ------------------------------------------------------------------------------------------------
+RG_B = ('all 2^512 bitfield states, any set of bits already held by this thread, an environment that may overwrite the accessed word before EVERY atomic '
+        'access (any value keeping this thread\'s bits), order %d; sequentially consistent atomics; try_update: one interference between load and CAS')
+RG_ASSUMES = ['rely: other threads never change a bit this thread owns (follows from every thread meeting the guarantee: DESIGN.md 4.3)',
+              'std fetch_update loop modelled with one interfering write between load and CAS; compare_exchange_weak never fails spuriously']
+for o in range(10):
+    ob(f'bitfield::rg_set_first_zeros_o{o}', ['C01', 'C03', 'C21'], ['bitfield::Bitfield::set_first_zeros'] + (['bitfield::Bitfield::set_first_zero_rows'] if o > 6 else []),
+       tier='quick' if o in (0, 7, 8) else 'thorough', bound=RG_B % o, assumes=RG_ASSUMES, timeout=1200, cover=False)
+for o in (0, 2, 3, 4, 5, 6, 7, 8, 9):
+    ob(f'bitfield::rg_toggle_alloc_o{o}', ['C01', 'C03', 'C21'], ['bitfield::Bitfield::toggle'], tier='quick' if o in (0, 4, 8) else 'thorough', bound=RG_B % o, assumes=RG_ASSUMES, timeout=1200, cover=False)
+    ob(f'bitfield::rg_toggle_free_o{o}', ['C01', 'C03', 'C21'], ['bitfield::Bitfield::toggle'], tier='quick' if o in (0, 3, 7) else 'thorough', bound=RG_B % o + '; the freed block is held by this thread',
+       assumes=RG_ASSUMES, timeout=1200, cover=False)
